@@ -275,6 +275,26 @@ class Pool():
                 else:
                     logger.warning('{} died', worker)
 
+                # results delivered before the death are still waiting in the worker's queue if the death was
+                # noticed first by other means (a failed enqueue) - they are valid, consume them before giving
+                # up on the pending inputs, otherwise they would later be matched against an empty pending list
+                queue = self._queues.get(worker.id)
+                while queue is not None and self._pending_per_worker[worker.id]:
+                    try:
+                        if not queue.poll():
+                            break
+                        msg = queue.recv()
+                    except (EOFError, OSError):
+                        break
+                    if msg is None or not msg[1]:
+                        break
+                    self._pending -= 1
+                    self._pending_per_worker[worker.id].pop(0)
+                    if worker_callback:
+                        worker_callback(worker, 'finished', msg[2])
+                    if return_results:
+                        ret.append(msg[2])
+
                 if self._retry:
                     self._retries.extend(self._pending_per_worker[worker.id])
 
